@@ -77,6 +77,18 @@ CHECKS = {
                      "functions and 4 refractive-index entry points on complete energy x angle x density grids; the expected value is the left-to-right sum of "
                      "mass fraction x elemental function with the composition returned by the public parser / NIST lookup of the same build.",
                 note="Differential oracle (C07, C01, C02, C05 decide compositions and elemental values); refractive index constants derived from header macros, rel. 1e-6."),
+    "C13": dict(level="exploration", engine="ENUM", ref="4/C13",
+                technique="exhaustive enumeration of crystals x Miller cube x energies x Debye/angle/flag grids against metric-tensor, Bragg and explicit structure-factor references",
+                text="All 38 built-in crystals and 20/60 generated (triclinic) cells over the complete Miller cube, energy, Debye-factor, relative-angle and flag "
+                     "grids; d-spacing against the reciprocal metric tensor, inversion and 1/n scaling, volumes, Bragg's law or an error, and the structure factor "
+                     "against the explicit sum over atoms with the library's own atomic factors, additivity, Friedel's law and the forward reflection.",
+                note="Atomic factors via public FF_Rayl/Fi/Fii (Atomic_Factors cross-checked on a sub-grid); generated cells stand for user crystals; tolerances 1e-9..1e-12."),
+    "C20": dict(level="exploration", engine="ENUM", ref="4/C20",
+                technique="exhaustive enumeration of every constant and declaration of 7 binding interfaces against macro values produced by the C preprocessor and the lexed C prototypes",
+                text="The C side is executed (a generated program prints every numeric macro; every prototype is looked up with dlsym in the freshly built shared "
+                     "object); each binding file is lexed by a construct-counting lexer that fails closed on anything it does not understand, and every published "
+                     "constant, macro family and wrapped prototype is compared (about 24 000 comparisons), plus version strings of all build/packaging files.",
+                note="Non-C bindings are lexed, never compiled (no Fortran/Pascal/Cython/SWIG/IDL toolchain here); struct layouts and reshaped object wrappers are not compared."),
 }
 NOT_YET = {}
 ALL = ["C%02d" % i for i in range(1, 21)]
